@@ -152,6 +152,63 @@ def scaleCmd (j : Json) : R Json := do
   | "mse_loss" => pure (scalesJson (.ok (mseScales (← jnat j "numel") (← jbool j "mean"))))
   | _ => .error s!"unknown op {op}"
 
+def parseLrVal (v : Json) : R (Option (LrVal Float)) :=
+  match v with
+  | Json.null => pure none
+  | _ =>
+    match v.getObjVal? "f" with
+    | .ok b => do pure (some (.flt (ofBits (← asNat b))))
+    | .error _ =>
+      match v.getObjVal? "c" with
+      | .ok a => do pure (some (.cell (← asNat a)))
+      | .error _ => .error "bad lr value"
+
+def parseParam (v : Json) : R Param := do
+  let tag ← jostr v "tag"
+  let t ← match tag with
+    | none => pure none
+    | some s => match MupType.ofString? s with
+      | some t => pure (some t)
+      | none => .error s!"bad tag {s}"
+  pure ⟨← jnat v "id", t, ← jnats v "shape", ← jonat v "depth"⟩
+
+def parseEntry (v : Json) : R (Entry Float) :=
+  match v.getObjVal? "bare" with
+  | .ok p => do pure (.bare (← parseParam p))
+  | .error _ => do
+    let g ← jget v "group"
+    let ps ← (← jarr g "params").toList.mapM parseParam
+    let lr ← parseLrVal ((g.getObjVal? "lr").toOption.getD Json.null)
+    let wd ← match g.getObjVal? "wd" with
+      | .ok Json.null => pure none
+      | .ok b => do pure (some (ofBits (← asNat b)))
+      | .error _ => pure none
+    let extra ← (← jarr g "extra").toList.mapM fun kv => do
+      match kv.getArr? with
+      | .ok #[a, b] => pure ((a.getStr?.toOption.getD ""), (b.getStr?.toOption.getD ""))
+      | _ => .error "bad extra"
+    pure (.group ⟨ps, lr, wd, extra⟩)
+
+def lrValJson : LrVal Float → Json
+  | .flt v => Json.mkObj [("f", fbits v)]
+  | .cell a => Json.mkObj [("c", jn a)]
+
+def groupsCmd (j : Json) : R Json := do
+  let kind ← match ← jstr j "opt" with
+    | "adam" => pure OptKind.adam
+    | "sgd_out" => pure OptKind.sgdOutputScale
+    | o => .error s!"bad opt {o}"
+  let lr ← parseLrVal ((j.getObjVal? "lr").toOption.getD Json.null)
+  let entries ← (← jarr j "entries").toList.mapM parseEntry
+  match scaledParameters kind (← jbool j "indep") (← jbool j "allow") lr (← jflt j "wd")
+      (← jflts j "heap") entries with
+  | .error e => pure (jerr e)
+  | .ok (heap, gs) =>
+    pure (Json.mkObj [("heap", fbitsL heap),
+      ("groups", Json.arr (gs.map fun g => Json.mkObj [("id", jn g.param.id), ("lr", lrValJson g.lr),
+        ("wd", fbits g.wd),
+        ("extra", Json.arr (g.extra.map fun (a, b) => Json.arr #[Json.str a, Json.str b]).toArray)]).toArray)])
+
 def handle (j : Json) : R Json := do
   let k ← jstr j "k"
   match k with
@@ -188,6 +245,11 @@ def handle (j : Json) : R Json := do
   | "stacktaus" =>
       let ts := stackTaus (← jflt j "r") (← jflt j "rho") (← jnat j "layers")
       pure (Json.mkObj [("taus", Json.arr (ts.map fun (a, b) => Json.arr #[fbits a, fbits b]).toArray)])
+  | "groups" => groupsCmd j
+  | "zerostep" =>
+      let lr ← jflt j "lr"; let wd ← jflt j "wd"; let p ← jflt j "p"
+      pure (Json.mkObj [("sgd", fbits (sgdZeroStep lr wd p)),
+                        ("adamw", fbits (adamwZeroStep lr wd (← jflt j "eps") p))])
   | "lr" =>
       let opt ← jstr j "opt"
       let kind ← match opt with
